@@ -207,6 +207,17 @@ def r101(an, rep, collapse, expand, fmt, is_lt, lim):
             f"[{fmt}] an entry with line delta {wrong_sign[0][1]} after an entry with line delta {wrong_sign[0][0]} is merged into it as if it continued a split jump; CPython's "
             f"assembler only splits into pieces of one sign, so this is a genuine entry (compiler output: `def f(a=1, b=2,` + 127 newlines + ` c=(3, 4)): pass` has "
             f"co_lnotab (0,127)(0,-127), re-encoded as (0,0))", config=fmt)
+    # the line change of a split address delta sits on ONE side (co_linetable: first piece, the rest are (n, 0); co_lnotab: last piece, the first are (255, 0)):
+    # a full entry followed by an entry whose zero / non-zero line deltas are the other way round is two entries of the assembler
+    # (co_lnotab: address deltas are even, so (255, d != 0) is never written by the assembler and what happens to it is not constrained)
+    wrong_side = [b for b in sorted(wantB) for pr in (p1, p2)
+                  if is_lt and ev(pr, Item(line_offset=7, bytecode_offset=6), Item(line_offset=0, bytecode_offset=b))]
+    if is_lt:
+      rep.add("R10.1", f"a full entry is a split piece only with the line delta on the format's side [{fmt}]", not wrong_side, w,
+            "(254, 0) followed by (n, d != 0) stays two entries" if not wrong_side else
+            f"[{fmt}] the entries ({wrong_side[0]}, 0)(6, +7) are merged: in co_linetable the pieces after the first carry line delta 0, so the second entry starts a new line "
+            f"(a source line whose code is exactly 254 bytes - 127 `a;` statements - followed by another line); merged, the line change moves to the start of the run and the table re-encodes differently",
+            config=fmt)
     if is_lt:
         # CPython continues a range WITHOUT a line with (rest, -128), a range with a line with (rest, 0): a (n, 0) entry after a full
         # no-line entry starts a new range on the line before the gap
@@ -561,6 +572,21 @@ def r105(an, rep):
                 for arm in arms_of(n.value):
                     if not reads(arm, v):
                         bad.append((n, arm))
+        # every entry's delta leaves a record before the next one is added: the innermost loop around an update also stores into a mapping
+        # (subscript store / append); a loop that only sums deltas folds several table entries into one record
+        for n in ast.walk(f.node):
+            if not (isinstance(n, ast.AugAssign) and isinstance(n.target, ast.Name) and n.target.id == v and in_loop(n)):
+                continue
+            cur = n
+            while not isinstance(cur, (ast.For, ast.While)):
+                cur = pm[id(cur)]
+            records = [x for x in ast.walk(cur) if (isinstance(x, ast.Subscript) and isinstance(x.ctx, ast.Store))
+                       or (isinstance(x, ast.Call) and isinstance(x.func, ast.Attribute) and x.func.attr in ("append", "setdefault", "add", "extend", "insert"))]
+            hdr = f"for {norm_src(cur.target)} in {norm_src(cur.iter)[:50]}" if isinstance(cur, ast.For) else f"while {norm_src(cur.test)[:60]}"
+            rep.add("R10.5", f"{f.qual}::every delta added to {v} leaves a record before the next", bool(records), loc(f.module, n),
+                    f"the loop `{hdr}` that adds entry deltas to `{v}` also writes the mapping" if records else
+                    f"`{hdr}` adds the line deltas of several table entries to `{v}` and records nothing in between: the entries are folded into one (the co_lnotab entries "
+                    f"(4,+1)(0,+1) that the peephole pass leaves behind for removed statements become (4,+2)), so the re-encoded table is not the original")
         rep.add("R10.5", f"{f.qual}::{v} is a running sum of line deltas", not bad, loc(f.module, bad[0][0] if bad else f.node),
                 f"`{v}` starts at a constant and every update inside the table loop adds an entry's delta to its previous value ({n_upd} update site(s))" if not bad else
                 f"inside the table loop `{v}` is set to `{norm_src(bad[0][1])}`, which does not continue from its previous value (in `{norm_src(bad[0][0])[:70]}`): CPython keeps counting "
